@@ -1,4 +1,5 @@
 mod big;
+mod native;
 mod ops;
 mod scalar;
 
@@ -90,6 +91,19 @@ fn main() {
                     continue;
                 }
                 writeln!(out, "{}", run_line(t)).unwrap();
+            }
+        }
+        "native" => {
+            let which = argv.get(2).map(|s| s.as_str()).unwrap_or("");
+            let n: u64 = argv.get(3).and_then(|s| s.parse().ok()).unwrap_or(100000);
+            let seed: u64 = argv.get(4).and_then(|s| s.parse().ok()).unwrap_or(1);
+            let full = argv.get(5).map(|s| s == "full").unwrap_or(false);
+            match which {
+                "c13" => native::c13(n, seed, full),
+                _ => {
+                    eprintln!("unknown native check");
+                    std::process::exit(2);
+                }
             }
         }
         "list" => {
